@@ -21,7 +21,7 @@ from . import tlc
 from .common import SCRATCH, Check, chunks, seed, workers
 
 INVS = ["TypeOK", "CapacityInv", "OrderIsRecency", "NoGlobalsCarryOver", "NoCrossNamespace",
-        "TransparentFresh", "TransparentStale"]
+        "TransparentFresh", "TransparentStale", "HandlesStable"]
 PROPS = ["LRUOrder", "HitOnlyIfCached", "FailureStoresNothing"]
 
 
@@ -169,6 +169,7 @@ def replay(hist: list[dict], variant: str, cfg: dict, scratch: Path, env_globals
     loader = build_loader(variant, store, cfg, root)
     env = Environment(loader=loader, globals={"eg": "E"} if env_globals else None)
     coros: dict[int, object] = {}
+    held: list = []
     atomic_async = variant in ("dict", "fs")
     done_async: dict[int, dict] = {}
 
@@ -197,7 +198,13 @@ def replay(hist: list[dict], variant: str, cfg: dict, scratch: Path, env_globals
                 sp, nm, g = op["sp"], op["nm"], op["glob"]
                 kw = {"ns": sp} if variant in ("mixin", "choice", "dict") else {}
                 if op["mode"] == "sync":
-                    got = observe(lambda: env.get_template(nm, globals=globs(g), **kw).render())
+                    def load_and_render():
+                        t = env.get_template(nm, globals=globs(g), **kw)
+                        text = t.render()
+                        held.append((i, t, text))          # the caller keeps the Template it was handed
+                        del held[:-2]
+                        return text
+                    got = observe(load_and_render)
                 else:
                     async def task(nm=nm, g=g, kw=kw):
                         t = await env.get_template_async(nm, globals=globs(g), **kw)
@@ -256,6 +263,11 @@ def replay(hist: list[dict], variant: str, cfg: dict, scratch: Path, env_globals
                 inner = len(store.calls) > ncalls
                 if inner != exp["inner"]:
                     return {"at": i, "clause": "inner-call", "expected": exp["inner"], "got": inner}
+            # HandlesStable: a Template a caller still holds renders what it was loaded as
+            for at, t, text in held:
+                again = observe(t.render)
+                if again.get("text") != text:
+                    return {"at": i, "clause": "held-template", "expected": text, "got": again, "loaded_at": at}
         return None
     finally:
         for co in coros.values():
@@ -423,6 +435,16 @@ def check(tier: str) -> int:
                     chk.machinery_error = f"vacuity: actions never taken {never}"
         finally:
             r.cleanup()
+    # non-vacuity: TLC refutes HandlesStable when the object handed out is the cache entry itself (as found)
+    c = constants(MaxOps=3, Dev='{"RebindShared"}')
+    r = tlc.run("MC_Cache", tlc.cfg_text(constants=c, invariants=["HandlesStable"]), tag="cache-dev", timeout=1200)
+    try:
+        if r.error:
+            chk.machinery_error = r.error
+        elif not r.invariant_violated:
+            chk.machinery_error = "vacuity: HandlesStable holds even with the deviation RebindShared"
+    finally:
+        r.cleanup()
     # liveness: every suspended load completes (finite model, no state constraint)
     c = constants(MaxOps=3 if thorough else 2)
     r = tlc.run("MC_Cache", tlc.cfg_text(constants=c, specification="Spec", properties=["Terminates"]),
